@@ -328,6 +328,11 @@ def weave(unit, repo=None, variant=None):
             continue
         cs = eqmap.get(span[0])
         if cs is None:
+            # the signature line itself carries the rename (a renamed parameter): it was replaced one-for-one
+            for (hi1, hn, hj1) in equal_size_hunks:
+                if hi1 <= span[0] < hi1 + hn:
+                    cs = hj1 + (span[0] - hi1)
+        if cs is None:
             continue
         _c0, ce = fn_span(cur, cs)
         if ce is None:
